@@ -35,6 +35,7 @@ b26f247 D19-pubcomp-of-earlier-connection-underflows.json
 b3d3866 D23-alias-bound-by-queued-publish.json
 362c262 D24-nonpersistent-close-keeps-store.json
 362c262 K01-offline-queued-packet-kept.json
+e7bc077 D27-keep-alive-timeout-without-close-when-disconnect-does-not-fit.json
 TAB
 ./check.sh --build >/dev/null 2>&1
 for f in findings/D*.json findings/K01*.json; do echo "fixed tree: $f -> $(./target/sim/simcheck x --replay $f | tail -1 | cut -c1-40)"; done | grep -v "no violation" ; echo done
